@@ -64,10 +64,10 @@ class C11(Check):
     def strategy(self, tier):
         if tier == 'quick':
             N = st.one_of(st.sampled_from([16, 20, 24, 32, 33, 48, 64]), st.integers(16, 64))
-            G = st.sampled_from([64, 65, 96, 128, 129, 256, 257])
+            G = st.one_of(st.sampled_from([64, 65, 96, 128, 129, 256, 257]), st.integers(64, 300))
         else:
             N = st.one_of(st.sampled_from([16, 24, 32, 33, 64, 100, 128, 129, 200, 256]), st.integers(16, 256))
-            G = st.sampled_from([64, 65, 128, 129, 256, 500, 512, 1000, 1024, 1025, 2048])
+            G = st.one_of(st.sampled_from([64, 65, 128, 129, 256, 500, 512, 1000, 1024, 1025, 2048]), st.integers(64, 700))
         return st.fixed_dictionaries(dict(spec=GL.lens_spec(IMG, min_surfs=2), N=N, G=G, fld=st.integers(0, 5),
                                           defocus=st.one_of(st.just(0.0), f(-1.0, 1.0)), clip=st.booleans(),
                                           ideal=st.booleans(), mtf=st.booleans()))
